@@ -1,5 +1,5 @@
 """C17 - LaTeX output keeps its group/environment structure whatever the text says (E1 + output scanner)."""
-from mc import core, spaces
+from mc import core, spaces, inlinespell, leafspell
 from models import scan_latex
 
 ID = 'C17'
@@ -35,6 +35,7 @@ def jobs(tier):
         js.append(('edit', lo, lo + 8, tier))
     for i in range(len(ROLE_STRINGS)):
         js.append(('roles', i))
+    js += leafspell.jobs() + inlinespell.jobs()
     return js
 
 
@@ -88,6 +89,14 @@ def run_job(job):
         for w in core.words_of_job(alpha, prefix, k):
             run_text(r, ''.join(w))
         r.sample(dict(space=name, text=''.join(alpha[i] for i in (prefix or ())) + alpha[0]), 1)
+    elif job[0] in ('leafspell', 'inlinespell'):
+        mod = leafspell if job[0] == 'leafspell' else inlinespell
+        for case in mod.cases_of_job(job):
+            for ctx in mod.CONTEXTS:
+                x = mod.in_context(case, ctx)
+                if x is not None:
+                    run_text(r, x[0])
+        r.sample(dict(space=job[0], family=job[1]), 1)
     elif job[0] == 'roles':
         for key, text in spaces.role_documents([ROLE_STRINGS[job[1]]]):
             run_text(r, text)
